@@ -15,7 +15,7 @@ FILES = ["anytree/node/symlinknodemixin.py", "anytree/node/symlinknode.py", "any
 ASSUMPTIONS = ["Python's attribute lookup order (instance dictionary and class attributes before __getattr__) is CPython's; "
                "'every other attribute' = data attributes, i.e. names no node class defines",
                "links are created after their targets (no self-targeting link)"]
-NAMES = ["foo", "bar", "k", "name", "x_1"]
+NAMES = ["foo", "bar", "k", "name", "x_1", "__tag__", "_private"]
 
 
 def gen_cases(tier, seed):
